@@ -275,16 +275,18 @@ def finish(prop, tier, verif_seed, results, extra, det, known, pools, t0, shrink
     if viol_runs:
         rc = 1
         reported = set()
-        for r, real in viol_runs[:40]:
+        t_shrink0 = time.time()
+        for r, real in viol_runs[:60]:
             classes = {v["class"] for v in real}
             key = tuple(sorted(classes))
-            if key in reported:
+            if key in reported or len(reported) >= 6:
                 continue
             reported.add(key)
             plan, trace, nexec = r["plan"], [], 0
-            if shrink_enabled and r.get("plan"):
+            # minimisation budget: the first three distinct violation classes, 5 minutes in total
+            if shrink_enabled and r.get("plan") and len(reported) <= 3 and time.time() - t_shrink0 < 300:
                 try:
-                    plan, trace, nexec = shrink(pools, prop, r, classes)
+                    plan, trace, nexec = shrink(pools, prop, r, classes, budget_s=100.0, max_exec=45)
                 except BaseException as e:  # noqa: BLE001
                     trace = [f"shrinking failed: {e}"]
             # confirm in a fresh process and take the digest of the minimised plan
